@@ -8,8 +8,8 @@ CONSTANTS
   MaxRx = 2
   AllowDup = FALSE
   Modes <- Modes_One
-  MaxSys = 2
-  MaxOps = 1
+  MaxSys = 1
+  MaxOps = 2
   Preds <- Preds_Few
   QueryKinds <- Q_HistEnd
   ConcGrid <- G_None
